@@ -28,7 +28,9 @@ Chk(b, msg) == b \/ (PrintT(msg) /\ FALSE)
 CaseOK(i) ==
     LET c == Cases[i] e == Expected(c)
     IN  Chk(c.ran = e.ran /\ c.args = e.args,
-            <<"CASE_REJECTED", i, c.side, c.kind, "expected", e, "observed", [ran |-> c.ran, args |-> c.args]>>)
+            \* (c.late: the part of the registry that was added after the event had already been
+            \*  dispatched once - resolution is a function of the registry as it is NOW)
+            <<"CASE_REJECTED", i, c.side, c.kind, "registered late", c.late, "expected", e, "observed", [ran |-> c.ran, args |-> c.args]>>)
 
 AllCasesOK == \A i \in 1..Len(Cases) : CaseOK(i)
 
